@@ -1,4 +1,5 @@
 #include "MemoryReader.h"
+#include "VerifTrace.h"
 #include <iostream>
 #include <cstring> //memcpy
 #include <stdexcept>
@@ -10,6 +11,7 @@ namespace OP2Utility::Stream
 
 	void MemoryReader::ReadImplementation(void* buffer, std::size_t size)
 	{
+		OP2UTILITY_VERIF_SCOPE("mem", "Read", size, 0);
 		if (size > streamSize - position) {
 			throw std::runtime_error("Size of bytes to read exceeds remaining size of buffer.");
 		}
@@ -19,6 +21,7 @@ namespace OP2Utility::Stream
 	}
 
 	std::size_t MemoryReader::ReadPartial(void* buffer, std::size_t size) noexcept {
+		OP2UTILITY_VERIF_SCOPE("mem", "ReadPartial", size, 0);
 		auto bytesLeft = streamSize - position;
 		std::size_t bytesTransferred = (size < bytesLeft) ? size : bytesLeft;
 
@@ -37,6 +40,7 @@ namespace OP2Utility::Stream
 	}
 
 	void MemoryReader::Seek(uint64_t position) {
+		OP2UTILITY_VERIF_SCOPE("mem", "Seek", position, 0);
 		if (position > streamSize) {
 			throw std::runtime_error("Change in offset places read position outside bounds of buffer.");
 		}
@@ -47,6 +51,7 @@ namespace OP2Utility::Stream
 
 	void MemoryReader::SeekForward(uint64_t offset)
 	{
+		OP2UTILITY_VERIF_SCOPE("mem", "SeekForward", offset, 0);
 		uint64_t newPosition = this->position + offset;
 		
 		if (newPosition > streamSize || newPosition < this->position) // Check if offset wraps past max size.
@@ -60,6 +65,7 @@ namespace OP2Utility::Stream
 
 	void MemoryReader::SeekBackward(uint64_t offset)
 	{
+		OP2UTILITY_VERIF_SCOPE("mem", "SeekBackward", offset, 0);
 		if (offset > this->position) {
 			throw std::runtime_error("Change in offset puts read position outside bounds of buffer.");
 		}
@@ -69,6 +75,7 @@ namespace OP2Utility::Stream
 
 	MemoryReader MemoryReader::Slice(uint64_t sliceLength)
 	{
+		OP2UTILITY_VERIF_SCOPE("mem", "SliceHere", sliceLength, 0);
 		auto slice = Slice(Position(), sliceLength);
 
 		// Wait until slice is successfully created before seeking forward.
@@ -79,6 +86,7 @@ namespace OP2Utility::Stream
 
 	MemoryReader MemoryReader::Slice(uint64_t sliceStartPosition, uint64_t sliceLength)  const
 	{
+		OP2UTILITY_VERIF_SCOPE("mem", "SliceAt", sliceStartPosition, sliceLength);
 		if (sliceStartPosition > SIZE_MAX || sliceLength > SIZE_MAX) {
 			throw std::runtime_error("Slice starting position and Slice length for creating a new memory stream slice must be smaller values.");
 		}
